@@ -218,3 +218,30 @@ MUTANTS = [
     ("bsdi_crypt key folding skips a final one-byte block", "passlib/handlers/des_crypt.py", "    key_value = _crypt_secret_to_key(secret)\n    idx = 8\n    end = len(secret)\n    while idx < end:", "    key_value = _crypt_secret_to_key(secret)\n    idx = 8\n    end = len(secret) - 1\n    while idx < end:", "refute", "_bsdi_secret_to_key"),
     ("bigcrypt: last segment of one byte dropped", "passlib/handlers/des_crypt.py", "        while idx < end:\n            next = idx + 8\n            chk += _raw_des_crypt(secret[idx:next], chk[-11:-9])", "        while idx < end - 1:\n            next = idx + 8\n            chk += _raw_des_crypt(secret[idx:next], chk[-11:-9])", "refute", "bigcrypt"),
 ]
+
+
+# ---- safe_crypt: bytes that are not UTF-8 cannot be handed to crypt(3) under Python 3; the answer is None -- the signal on
+#      which every os_crypt backend falls back to its built-in implementation -- never an exception ("hashing succeeds for
+#      non-UTF-8 byte passwords") ----
+def _sc_setup(it, args):
+    from pyvc.values import SObj as _SO, SStr as _SS, SStub as _ST
+    import z3 as _z3
+    it.genv.vars["_crypt"] = _ST(lambda i, a, k: _SS(_z3.String(i.run.fresh("crypt(3) result")), "str"), "_crypt", trusted="crypt(3): any text result")
+    it.genv.vars["_safe_crypt_lock"] = _SO("lock", fields={"__enter__": _ST(lambda i, a, k: None, "__enter__"), "__exit__": _ST(lambda i, a, k: False, "__exit__")})
+    return None
+
+
+from pyvc.contract import Bytes as _Bytes, Contract as _Contract, Str as _Str  # noqa: E402
+
+for _kind, _P in (("bytes password", _Bytes()), ("text password", _Str())):
+    CONTRACTS.append(_Contract(
+        f"safe_crypt[{_kind}]", "passlib/utils/__init__.py::safe_crypt",
+        params={"secret": _P, "hash": _Str()},
+        setup=_sc_setup,
+        raises={"ValueError": "'\\x00' in secret.decode('utf-8')" if _kind.startswith("bytes") else "'\\x00' in secret"},
+        ensures=[("the result is None or the text crypt(3) returned; a NUL is the ONLY reason to raise (undecodable bytes give None)", "result is None or len(result) >= 1")],
+        descr="any password, any config string; crypt(3) abstract",
+    ))
+MUTANTS += [
+    ("safe_crypt: undecodable bytes escape as UnicodeDecodeError", "passlib/utils/__init__.py", "            except UnicodeDecodeError:\n                return None", "            except UnicodeEncodeError:\n                return None", "refute", "safe_crypt"),
+]
